@@ -53,3 +53,59 @@ class MustFollow(AbsInt):
             if st[0]:
                 bad.append((node, st[1]))
         return bad
+
+
+def check_sorted_invariant(ctx, rule: str, cls: str = "AbsoluteSequence", methods=None) -> int:
+    """Class invariant of the absolute representation: the event list is sorted by time whenever a method returns.
+    Every statement that may disturb the order (a store to `.time` of a message that is not a fresh local, a rebind of
+    `self._messages`, an unsorted append) must be followed, on every normal exit, by a call that re-sorts the list."""
+    import ast as _ast
+    from ..astutil import attr_chain, call_method, short
+    from .effects import Effects, fresh_locals
+    p = ctx.p
+    eff = Effects(p)
+    ci = p.cls(cls)
+    n = 0
+    for name, fi in sorted(ci.methods.items()):
+        if methods is not None and name not in methods:
+            continue
+        if name in ("__init__", "sort", "_add_message_unsorted", "normalise_absolute"):
+            continue
+        fresh = fresh_locals(fi.node, p)
+
+        def trigger(s, fresh=fresh):
+            if isinstance(s, (_ast.Assign, _ast.AugAssign)):
+                tg = s.targets if isinstance(s, _ast.Assign) else [s.target]
+                for t in tg:
+                    if attr_chain(t) == ["self", "_messages"]:
+                        return True
+                    if isinstance(t, _ast.Attribute) and t.attr == "time" and not (isinstance(t.value, _ast.Name) and (t.value.id in fresh or t.value.id == "self")):
+                        return True
+            if isinstance(s, _ast.Expr) and isinstance(s.value, _ast.Call):
+                recv, m = call_method(s.value)
+                if attr_chain(recv) == ["self"] and m == "_add_message_unsorted":
+                    return True
+                if attr_chain(recv) == ["self", "_messages"] and m in ("append", "extend", "insert"):
+                    return True
+            return False
+
+        def discharge(x):
+            if isinstance(x, _ast.Call):
+                recv, m = call_method(x)
+                if isinstance(recv, _ast.Name) and recv.id == "self" and m and p.lookup_method(cls, m):
+                    return any(w.kind == "sort" for w in eff.writes(cls, m))
+                if attr_chain(recv) == ["self", "_messages"] and m == "sort":
+                    return True
+            return False
+        has_trigger = any(trigger(s) for s in _ast.walk(fi.node) if isinstance(s, _ast.stmt))
+        if not has_trigger:
+            continue
+        n += 1
+        ctx.analysed(fi)
+        bad = MustFollow(trigger, discharge).run(fi.node)
+        ctx.check(not bad, rule, f"{fi.qualname}: event list re-sorted after every change of times/order, on every exit", function=fi.qualname,
+                  construct="event times or list order changed without a following canonical sort",
+                  message=f"`{short(bad[0][1], 70) if bad else ''}` can reach an exit without re-sorting: the absolute list is no longer ordered by "
+                          f"time, and the conversion to the relative view (which walks the list in order) yields wrong waits",
+                  file=fi.file, node=bad[0][1] if bad else fi.node)
+    return n
